@@ -151,7 +151,7 @@ def _index_subset(draw, tier):
     return dict(shape=shape, idx=idx, neg=neg, dtype=form)
 
 
-@cell("C17/index/subsets", strategy=_index_subset, quick=1500, thorough=30000, shards=(2, 8))
+@cell("C17/index/subsets", strategy=_index_subset, quick=1500, thorough=16000, shards=(2, 8))
 def index_subsets(ctx, case):
     shape = tuple(case["shape"])
     size = ref.prod(shape)
@@ -541,7 +541,7 @@ def rows_intersect_enum(ctx, case):
     check_intersect(ctx, case)
 
 
-@cell("C17/rows/intersect/sampled", strategy=_row_pair, quick=1500, thorough=30000, shards=(2, 8))
+@cell("C17/rows/intersect/sampled", strategy=_row_pair, quick=1500, thorough=16000, shards=(2, 8))
 def rows_intersect(ctx, case):
     pc = pair_class(case)
     ctx.nt = _nt_pair(pc)
@@ -558,7 +558,7 @@ def rows_setdiff_enum(ctx, case):
     check_setdiff(ctx, case)
 
 
-@cell("C17/rows/setdiff/sampled", strategy=_row_pair, quick=1500, thorough=30000, shards=(2, 8))
+@cell("C17/rows/setdiff/sampled", strategy=_row_pair, quick=1500, thorough=16000, shards=(2, 8))
 def rows_setdiff(ctx, case):
     pc = pair_class(case)
     ctx.nt = _nt_pair(pc)
@@ -574,7 +574,7 @@ def rows_union_enum(ctx, case):
     check_union(ctx, case)
 
 
-@cell("C17/rows/union/sampled", strategy=_row_pair, quick=1500, thorough=30000, shards=(2, 8))
+@cell("C17/rows/union/sampled", strategy=_row_pair, quick=1500, thorough=16000, shards=(2, 8))
 def rows_union(ctx, case):
     pc = pair_class(case)
     ctx.nt = _nt_pair(pc)
@@ -590,7 +590,7 @@ def rows_ismember_enum(ctx, case):
     check_ismember(ctx, case)
 
 
-@cell("C17/rows/ismember/sampled", strategy=_row_pair, quick=1500, thorough=30000, shards=(2, 8))
+@cell("C17/rows/ismember/sampled", strategy=_row_pair, quick=1500, thorough=16000, shards=(2, 8))
 def rows_ismember(ctx, case):
     pc = pair_class(case)
     ctx.nt = bool(pc["common"] and pc["a_only"])
